@@ -38,7 +38,7 @@ pub fn gen_config(profile: &str, rng: &mut Rng, tier: Tier) -> Config {
 				nc.async_default = r.chance(1, 2);
 				nc.deferred = r.chance(1, 3);
 			},
-			"crash" | "forward" | "payments" | "receive" | "onchain" | "roundtrip" | "chainstyle" | "tamper" => {
+			"crash" | "forward" | "payments" | "receive" | "onchain" | "roundtrip" | "chainstyle" | "tamper" | "deadlines" => {
 				nc.async_default = r.chance(1, 4);
 				nc.deferred = r.chance(1, 5);
 			},
@@ -109,7 +109,7 @@ pub fn gen_config(profile: &str, rng: &mut Rng, tier: Tier) -> Config {
 			w(&mut weights, "AsyncOn", 2);
 			w(&mut weights, "PersistMgr", 6);
 		},
-		"forward" | "payments" | "receive" | "crash" | "onchain" | "roundtrip" | "chainstyle" | "tamper" => {
+		"forward" | "payments" | "receive" | "crash" | "onchain" | "roundtrip" | "chainstyle" | "tamper" | "deadlines" => {
 			w(&mut weights, "CompleteMon", *r.pick(&[10, 25, 50]));
 			w(&mut weights, "AsyncOn", 1);
 			w(&mut weights, "PersistMgr", *r.pick(&[3, 8, 20]));
@@ -122,6 +122,20 @@ pub fn gen_config(profile: &str, rng: &mut Rng, tier: Tier) -> Config {
 			w(&mut weights, "SetFee", 0);
 		},
 		_ => {},
+	}
+	if profile == "deadlines" {
+		// the chain runs past HTLC expiries while a peer is gone or unreachable; nobody crashes
+		// and comes back with stale state (that is C10's subject)
+		w(&mut weights, "Mine", *r.pick(&[6, 10, 16]));
+		w(&mut weights, "Relay", 4);
+		w(&mut weights, "Crash", 0);
+		w(&mut weights, "ArmCrash", 0);
+		w(&mut weights, "ForceClose", 0);
+		w(&mut weights, "Partition", *r.pick(&[1, 2]));
+		w(&mut weights, "Heal", *r.pick(&[0, 1, 2]));
+		w(&mut weights, "Gone", *r.pick(&[0, 1, 2]));
+		w(&mut weights, "Claim", *r.pick(&[2, 6, 12]));
+		w(&mut weights, "FailBack", *r.pick(&[0, 2]));
 	}
 	if profile == "tamper" {
 		w(&mut weights, "Tamper", *r.pick(&[2, 4, 8]));
@@ -324,6 +338,7 @@ pub fn next_action(wd: &World, rng: &mut Rng) -> Option<Action> {
 		.filter(|(a, b)| a < b)
 		.filter(|(a, b)| !wd.is_conn(*a, *b) && !wd.is_conn(*b, *a))
 		.filter(|(a, b)| wd.nodes[*a].live.is_some() && wd.nodes[*b].live.is_some())
+		.filter(|(a, b)| !wd.partitioned.contains(a) && !wd.partitioned.contains(b))
 		.cloned()
 		.collect();
 	let up: Vec<(usize, usize)> = wd
@@ -374,12 +389,22 @@ pub fn next_action(wd: &World, rng: &mut Rng) -> Option<Action> {
 		})
 		.filter(|(f, t, _)| wd.is_conn(*t, *f) && wd.nodes[*t].live.is_some())
 		.collect();
+	if !live.is_empty() && cfg.profile == "deadlines" {
+		if wd.partitioned.len() + wd.nodes.iter().filter(|x| x.gone).count() < 1 {
+			kinds.push(("Partition", weight(cfg, "Partition")));
+			kinds.push(("Gone", weight(cfg, "Gone")));
+		}
+		if !wd.partitioned.is_empty() {
+			kinds.push(("Heal", weight(cfg, "Heal")));
+		}
+	}
 	if !tamperable.is_empty() && wd.tampers_done < 2 {
 		kinds.push(("Tamper", weight(cfg, "Tamper")));
 	}
 	// T1/T3: the random phase may move the chain only by a bounded number of blocks, so that no
 	// HTLC comes near its expiry while a node is down or messages are delayed
-	if wd.out.sim_blocks < 18 {
+	let block_budget = if cfg.profile == "deadlines" { 420 } else { 18 };
+	if wd.out.sim_blocks < block_budget {
 		kinds.push(("Mine", weight(cfg, "Mine")));
 		// T4: reorganisations stay below the anti-reorg depth where loss-freedom is asserted
 		kinds.push(("Reorg", weight(cfg, "Reorg")));
@@ -455,6 +480,9 @@ pub fn next_action(wd: &World, rng: &mut Rng) -> Option<Action> {
 			let (f, t) = *rng.pick(&nonempty);
 			Action::Deliver { from: f, to: t }
 		},
+		"Partition" => Action::Partition { n: pick_live(rng) },
+		"Gone" => Action::Gone { n: pick_live(rng) },
+		"Heal" => Action::Heal { n: *wd.partitioned.iter().next().unwrap() },
 		"Tamper" => {
 			let (f, t, is_raa) = *rng.pick(&tamperable);
 			Action::Tamper { from: f, to: t, kind: if is_raa { rng.below(2) as u8 } else { 2 } }
@@ -482,7 +510,7 @@ pub fn next_action(wd: &World, rng: &mut Rng) -> Option<Action> {
 			Action::CompleteMon { n: i, chan: c, which: rng.below(3) as u8 }
 		},
 		"Restart" => Action::Restart { n: *rng.pick(&dead), style: 0 },
-		"Mine" => Action::Mine { count: rng.range(1, 3) as u32 },
+		"Mine" => Action::Mine { count: if cfg.profile == "deadlines" { *rng.pick(&[1u32, 1, 2, 3, 6, 12]) } else { rng.range(1, 3) as u32 } },
 		"Reorg" => {
 			let depth = *rng.pick(&[1u32, 1, 2, 3, 5]);
 			Action::Reorg { depth, readmit: rng.chance(3, 4), new_len: depth + rng.below(2) as u32 + 1 }
